@@ -114,6 +114,124 @@ fn routing(rep: &mut Report, n: usize, masks: &[u64]) {
     }
 }
 
+
+/// Wait (bounded) until the condition on the shared state holds.
+fn wait_shared(h: &H, secs: u64, cond: impl Fn(&Shared) -> bool) -> bool {
+    let (m, cv) = &*h.be.sh;
+    let mut g = m.lock().unwrap();
+    let start = std::time::Instant::now();
+    while !cond(&g) {
+        if start.elapsed() > std::time::Duration::from_secs(secs) {
+            return false;
+        }
+        g = cv.wait_timeout(g, std::time::Duration::from_millis(20)).unwrap().0;
+    }
+    true
+}
+
+/// "Handled by the first worker whose mask contains the queue" while that worker is busy: for every
+/// queue contained in more than one mask, the owner is held inside the handler (first kick), the
+/// queue is kicked again and every *other* worker passes the two-round barrier: none of them may
+/// have dispatched anything; after the release the owner handles the second kick. Run after each
+/// message history that makes the daemon revisit the kick registrations of running rings.
+fn busy_owner(rep: &mut Report, n: usize, masks: &[u64], hist: u8) {
+    let owners = |q: usize| masks.iter().enumerate().filter(|(_, m)| *m >> q & 1 == 1).map(|(t, _)| t).collect::<Vec<_>>();
+    if !(0..n).any(|q| owners(q).len() >= 2) {
+        return;
+    }
+    let case = |q: usize| json!({"check":"C17","part":"busy-owner","queues":n,"masks":masks,"history":hist,"kicked":q});
+    let (mut h, fds) = match setup(n, masks) {
+        Ok(x) => x,
+        Err(e) => {
+            rep.evaluations += 1;
+            rep.violation("C17:setup-failed", &format!("daemon with {n} queues and masks {:x?} could not be configured: {e} (panics {:?})", masks, take_panics()), case(0));
+            return;
+        }
+    };
+    // histories after which the registrations have been revisited for rings that are running
+    let r = match hist {
+        0 => Ok(true),
+        // enabling message repeated: SET_FEATURES without PROTOCOL_FEATURES enables all rings again
+        1 => h.ack(SET_FEATURES, &p_u64(0x3), &[]),
+        // twice
+        2 => h.ack(SET_FEATURES, &p_u64(0x3), &[]).and_then(|_| h.ack(SET_FEATURES, &p_u64(0x1), &[])),
+        // ring sizes set again on running rings (same values)
+        _ => (0..n).try_fold(true, |_, q| h.ack(SET_VRING_NUM, &p_vring_state(q as u32, size_of_queue(q) as u32), &[])),
+    };
+    if let Err(e) = r {
+        rep.evaluations += 1;
+        rep.violation("C17:history-failed", &format!("history {hist} failed: {e}"), case(0));
+        return;
+    }
+    for q in 0..n {
+        let ow = owners(q);
+        if ow.len() < 2 {
+            continue;
+        }
+        let t = ow[0];
+        let ev = (masks[t] & ((1u64 << q) - 1)).count_ones() as u16;
+        let good = |x: &Dispatch| x.thread == t && x.event == ev && x.ring_size == Some(size_of_queue(q));
+        if h.probe_all().is_err() {
+            rep.evaluations += 1;
+            rep.violation("C17:worker-stuck-or-dead", "barrier before the busy-owner step", case(q));
+            return;
+        }
+        h.be.take_dispatches();
+        h.be.sh.0.lock().unwrap().actions.push_back(Action::Hold);
+        kick(&fds[q]);
+        rep.evaluations += 1;
+        rep.transitions += 1;
+        let held = wait_shared(&h, 6, |s| s.held.is_some());
+        let who = h.be.sh.0.lock().unwrap().held;
+        if !held || who != Some(t) {
+            let d = h.be.dispatches();
+            h.be.sh.0.lock().unwrap().release = true;
+            h.be.sh.1.notify_all();
+            rep.outcome("misrouted");
+            rep.violation(if held { "C17:routing:wrong-worker" } else { "C17:routing:not-dispatched" }, &format!("queues={n} masks={:x?} history {hist}: kick on queue {q} expected on thread {t}, handler entered by {:?}; dispatches {:?}", masks, who, d), case(q));
+            let _ = wait_shared(&h, 6, |s| s.held.is_none());
+            return;
+        }
+        // the owner is busy: second kick, barrier on everybody else
+        kick(&fds[q]);
+        let mut failed = None;
+        for t2 in 0..masks.len() {
+            if t2 != t {
+                if let Err(e) = h.probe(t2) {
+                    failed = Some(e);
+                    break;
+                }
+            }
+        }
+        let d = h.be.take_dispatches();
+        h.be.sh.0.lock().unwrap().release = true;
+        h.be.sh.1.notify_all();
+        let _ = wait_shared(&h, 6, |s| s.held.is_none());
+        if let Some(e) = failed {
+            rep.violation("C17:worker-stuck-or-dead", &e, case(q));
+            return;
+        }
+        let stray: Vec<&Dispatch> = d.iter().filter(|x| x.thread != t).collect();
+        if !stray.is_empty() {
+            rep.outcome("misrouted");
+            rep.violation("C17:routing:wrong-worker-while-owner-busy", &format!("queues={n} masks={:x?} history {hist}: queue {q} belongs to worker {t} (busy in its handler); a second kick was handled by {:?}", masks, stray), case(q));
+            continue;
+        }
+        if let Err(e) = h.probe_all() {
+            rep.violation("C17:worker-stuck-or-dead", &e, case(q));
+            return;
+        }
+        let d2 = h.be.take_dispatches();
+        if !d2.is_empty() && d2.iter().all(good) {
+            rep.outcome("second-kick-waited-for-its-owner");
+            rep.nontrivial_key(&format!("busy/{n}/{masks:x?}/{hist}/{q}"));
+        } else {
+            rep.outcome("misrouted");
+            rep.violation("C17:routing:second-kick", &format!("queues={n} masks={:x?} history {hist}: the kick sent while worker {t} was busy was expected on (thread {t}, event {ev}) after the release, observed {:?}", masks, d2), case(q));
+        }
+    }
+}
+
 fn listeners(rep: &mut Report, n: usize, masks: &[u64], ids: &[u64]) {
     listeners_with(rep, n, masks, ids, EventSet::IN);
     // a listener may be registered for any event set: one that becomes ready without EPOLLIN (a
@@ -240,6 +358,11 @@ pub fn run(rep: &mut Report) {
             }
             routing(rep, n, &masks);
             configs += 1;
+            if n <= (if thorough { 4 } else { 3 }) {
+                for hist in 0..4u8 {
+                    busy_owner(rep, n, &masks, hist);
+                }
+            }
         }
     }
     let ids: Vec<u64> = vec![0, 1, 2, 3, 4, 5, 255, 256, 65534, 65535, 65536, 65537, 65538, (1 << 32) + 1, (1 << 32) + 5, u64::MAX, (1 << 16) + 65535];
@@ -254,7 +377,7 @@ pub fn run(rep: &mut Report) {
     rep.extra.insert("configurations".into(), json!(configs));
     rep.sample(json!({"queues":3,"masks":["0b101","0b010"],"kicked":2,"expect":{"thread":0,"event":1,"ring_size":8}}));
     rep.sample(json!({"queues":2,"masks":["0b11"],"listener_id":65537,"expect":"refused, or delivered with exactly id 65537"}));
-    rep.rule = "all assignments of n queues to worker masks drawn from all non-empty subsets of n bits (plus masks with bits beyond n for n<=3): 1..=3 workers for n<=3, 1..=2 for n=4 (a structured subset of the pairs at quick); thorough: 1..=3 workers for every n<=5 and 1..=2 workers for n=6; every ring started and enabled with a distinct size, every queue kicked once, barrier on every worker; custom listener ids {0..5, 255, 256, 65535, 65536, 65537, 65538, 2^32+1, 2^32+5, 2^64-1} on two configurations, registered for readability and (valid ids) for one-shot writability. Non-trivial = kicks whose (thread id, event id, vrings[event id] identity) were verified, listeners delivered with their exact id or refused".into();
+    rep.rule = "all assignments of n queues to worker masks drawn from all non-empty subsets of n bits (plus masks with bits beyond n for n<=3): 1..=3 workers for n<=3, 1..=2 for n=4 (a structured subset of the pairs at quick); thorough: 1..=3 workers for every n<=5 and 1..=2 workers for n=6; every ring started and enabled with a distinct size, every queue kicked once, barrier on every worker; custom listener ids {0..5, 255, 256, 65535, 65536, 65537, 65538, 2^32+1, 2^32+5, 2^64-1} on two configurations, registered for readability and (valid ids) for one-shot writability; for n<=3 (thorough: 4) and every configuration with a queue in more than one mask: after each of 4 message histories (none, enabling message repeated once / twice, ring sizes set again) the owner of such a queue is held inside its handler, the queue kicked again, and no other worker may handle it before the owner is released (deterministic 'owner busy' schedule, barrier on the other workers). Non-trivial = kicks whose (thread id, event id, vrings[event id] identity) were verified, listeners delivered with their exact id or refused".into();
     rep.assumptions.push("rings are distinguished by their configured size (2 << q)".into());
 }
 
